@@ -68,6 +68,8 @@ TOKENS = [
     ('H_nasa_a_high_4', 'nasa.a_high.4'),
     ('H_nasa_a_high_5', 'nasa.a_high.5'),
     ('H_nasa_a_high_6', 'nasa.a_high.6'),
+    ('H_vib_pad', 'vib_wavenumber '), ('H_vib_pad2', '\tvib_wavenumber'), ('H_rot_pad', ' rot_temperature'),
+    ('H_list_sites_pad', ' list.sites'), ('H_list_sites_pad2', 'list.sites  '),
     # headers outside the documented forms (MC_ExcelReader_wide.cfg only)
     ('W_n_elements_extra', 'n_elements_extra'), ('W_reformulated', 'reformulated'),
     ('W_natoms', 'natoms'), ('W_nasa_note', 'nasa_note'), ('W_playlist_x', 'playlist.x'),
